@@ -1,8 +1,281 @@
 package schema
 
-// ResourceCorpus is filled in by the resource-level checks (C02 and friends).
+import (
+	"fmt"
+
+	"pgregory.net/rapid"
+)
+
+func tp(t Type) *Type { return &t }
+
+var restMethodsCollection = []string{"get", "create", "update", "partial_update", "delete", "get_all", "batch_get", "batch_create", "batch_update", "batch_partial_update", "batch_delete"}
+var restMethodsSimple = []string{"get", "update", "partial_update", "delete"}
+
+func onEntity(method string) bool {
+	switch method {
+	case "get", "update", "partial_update", "delete":
+		return true
+	}
+	return false
+}
+
+func restMethods(names []string, collection bool, returnEntity bool, params map[string][]Field, paging bool) []Method {
+	var ms []Method
+	for _, n := range names {
+		m := Method{Kind: "REST_METHOD", Name: n, OnEntity: collection && onEntity(n), Params: params[n]}
+		if returnEntity && (n == "create" || n == "batch_create" || n == "partial_update") {
+			m.ReturnEntity = true
+		}
+		if paging && n == "get_all" {
+			m.Paging = true
+		}
+		ms = append(ms, m)
+	}
+	return ms
+}
+
+// collection builds a collection resource "name" in namespace ns keyed by key, under the given parent segments.
+func collection(ns string, parents []PathSeg, name, keyName string, key Type, entity Type) *Resource {
+	segs := append(append([]PathSeg(nil), parents...), PathSeg{Name: name, KeyName: keyName, Key: tp(key)})
+	return &Resource{Namespace: ns, Segments: segs, Schema: tp(entity)}
+}
+
+func simple(ns string, parents []PathSeg, name string, entity *Type) *Resource {
+	segs := append(append([]PathSeg(nil), parents...), PathSeg{Name: name})
+	return &Resource{Namespace: ns, Segments: segs, Schema: entity}
+}
+
+// keyTypes the resource grammar draws entity keys from (ns = data namespace).
+func keyTypes(ns string) []Type {
+	// bytes (and typerefs to bytes) are left out: a collection keyed by bytes does not compile (map[[]byte]V and the
+	// `comparable` constraints of the batch helpers) - recorded as known finding KF-C12-bytes-key
+	return []Type{P("string"), P("int32"), P("int64"), P("bool"), P("float64"), P("float32"), R(ns, "TString"), R(ns, "TInt64"), R(ns, "Color")}
+}
+
+// paramTypes for query parameters / action parameters and action results.
+func paramTypes(ns string) []Type {
+	return []Type{P("string"), P("int32"), P("int64"), P("float64"), P("bool"), P("bytes"), R(ns, "Color"), R(ns, "TString"), R(ns, "Fix4"), R(ns, "Leaf"),
+		R(ns, "Inner"), R(ns, "U"), A(P("string")), A(R(ns, "Leaf")), M(P("int64")), A(P("int64")), M(R(ns, "Leaf")), R(ns, "WithDefaults"), A(R(ns, "Color"))}
+}
+
+// ResourceCorpus: the resource-level corpus. variant 0 is the systematic family (every resource kind, key type,
+// method kind, parent chain); other variants add nRandom seeded random resources on top of a smaller core.
 func ResourceCorpus(packageRoot string, seed int64, variant, nRandom int) *Schema {
+	const ns = "vt"
 	s := &Schema{PackageRoot: packageRoot}
-	Base(s, "vt")
+	Base(s, ns)
+	s.Add(&Named{Ident: Ident{"IncA", ns}, Kind: "record", Includes: []Ident{{"Leaf", ns}}, Fields: []Field{{Name: "a", Type: P("float64")}}})
+	s.Add(&Named{Ident: Ident{"Meta", ns}, Kind: "record", Fields: []Field{{Name: "total", Type: P("int64")}, {Name: "note", Type: P("string"), Optional: true}}})
+	s.Add(&Named{Ident: Ident{"KeyParams", ns}, Kind: "record", Fields: []Field{
+		{Name: "p", Type: P("string"), Optional: true}, {Name: "n", Type: P("int32"), Optional: true},
+	}})
+	s.Add(&Named{Ident: Ident{"Annotated", ns}, Kind: "record", Fields: []Field{
+		{Name: "id", Type: P("int64"), Optional: true},      // read-only
+		{Name: "owner", Type: P("string"), Optional: true}, // create-only
+		{Name: "title", Type: P("string")},
+		{Name: "audit", Type: R(ns, "Leaf"), Optional: true}, // audit/s read-only
+		{Name: "tags", Type: A(R(ns, "Leaf")), Optional: true}, // tags/*/i read-only
+		{Name: "attrs", Type: M(R(ns, "Leaf")), Optional: true}, // attrs/*/s create-only
+		{Name: "count", Type: P("int32"), Default: sp("1")},
+	}})
+
+	pt := paramTypes(ns)
+	allParams := func(prefix string, n int, off int) []Field {
+		var fs []Field
+		for i := 0; i < n; i++ {
+			t := pt[(off+i)%len(pt)]
+			f := Field{Name: fmt.Sprintf("%s%d", prefix, i), Type: t}
+			switch i % 3 {
+			case 1:
+				f.Optional = true
+			case 2:
+				if t.Prim == "string" {
+					f.Default = sp(`"dflt"`)
+				} else if t.Prim == "int32" || t.Prim == "int64" {
+					f.Default = sp("5")
+				} else {
+					f.Optional = true
+				}
+			}
+			fs = append(fs, f)
+		}
+		return fs
+	}
+
+	// 1. things: string key, every REST method, finders, actions
+	things := collection("vr.things", nil, "things", "thingId", P("string"), R(ns, "Inner"))
+	things.Methods = restMethods(restMethodsCollection, true, false, map[string][]Field{
+		"get":       allParams("g", 2, 0),
+		"batch_get": allParams("bg", 2, 3),
+		"create":    allParams("c", 1, 5),
+		"get_all":   allParams("ga", 1, 0),
+	}, true)
+	things.Methods = append(things.Methods,
+		Method{Kind: "FINDER", Name: "byName", Params: []Field{{Name: "name", Type: P("string")}, {Name: "limit", Type: P("int32"), Optional: true}}, Paging: true, Return: tp(R(ns, "Inner"))},
+		Method{Kind: "FINDER", Name: "all", Return: tp(R(ns, "Inner"))},
+		Method{Kind: "FINDER", Name: "withMeta", Params: allParams("f", 4, 6), Return: tp(R(ns, "Inner")), Metadata: tp(R(ns, "Meta")), Paging: true},
+		Method{Kind: "ACTION", Name: "count", Return: tp(P("int64"))},
+		Method{Kind: "ACTION", Name: "rename", OnEntity: true, Params: []Field{{Name: "to", Type: P("string")}, {Name: "force", Type: P("bool"), Optional: true}}, Return: tp(R(ns, "Inner"))},
+		Method{Kind: "ACTION", Name: "purge", Params: allParams("a", 5, 9)},
+		Method{Kind: "ACTION", Name: "touch", OnEntity: true},
+	)
+	s.Resources = append(s.Resources, things)
+
+	// 2. sub-collection and sub-simple under things
+	thingSeg := things.Segments
+	subs := collection("vr.things.subs", thingSeg, "subs", "subId", P("int64"), R(ns, "Leaf"))
+	subs.Methods = restMethods([]string{"get", "create", "batch_get", "delete", "batch_delete", "get_all"}, true, false, nil, false)
+	subs.Methods = append(subs.Methods, Method{Kind: "FINDER", Name: "recent", Params: []Field{{Name: "since", Type: P("int64")}}, Return: tp(R(ns, "Leaf"))},
+		Method{Kind: "ACTION", Name: "echo", OnEntity: true, Params: []Field{{Name: "what", Type: A(P("string"))}}, Return: tp(A(P("string")))})
+	s.Resources = append(s.Resources, subs)
+	detail := simple("vr.things.detail", thingSeg, "detail", tp(R(ns, "WithDefaults")))
+	detail.Methods = restMethods(restMethodsSimple, false, false, nil, false)
+	detail.Methods = append(detail.Methods, Method{Kind: "ACTION", Name: "reset", Return: tp(R(ns, "WithDefaults"))})
+	s.Resources = append(s.Resources, detail)
+	// third level
+	deep := collection("vr.things.subs.items", subs.Segments, "items", "itemId", R(ns, "Color"), R(ns, "Leaf"))
+	deep.Methods = restMethods([]string{"get", "update", "batch_update", "batch_get"}, true, false, nil, false)
+	s.Resources = append(s.Resources, deep)
+
+	// 3. one collection per key type with return-entity methods
+	for i, kt := range keyTypes(ns) {
+		name := fmt.Sprintf("k%d", i)
+		r := collection("vr."+name, nil, name, "key", kt, R(ns, "Leaf"))
+		r.Methods = restMethods(restMethodsCollection, true, i%2 == 0, map[string][]Field{"batch_delete": allParams("bd", 1, i), "update": allParams("u", 1, i+2)}, false)
+		r.Methods = append(r.Methods, Method{Kind: "ACTION", Name: "act", OnEntity: true, Params: []Field{{Name: "k", Type: kt}}, Return: tp(kt)})
+		s.Resources = append(s.Resources, r)
+	}
+
+	// 4. complex keys (with params, and one whose key record nests)
+	s.Add(&Named{Ident: Ident{"Cks_ComplexKey", "vr.cks"}, Kind: "complexkey", Key: &Ident{"Leaf", ns}, Params: &Ident{"KeyParams", ns}})
+	cks := collection("vr.cks", nil, "cks", "key", R("vr.cks", "Cks_ComplexKey"), R(ns, "Inner"))
+	cks.Methods = restMethods(restMethodsCollection, true, false, nil, false)
+	cks.Methods = append(cks.Methods, Method{Kind: "FINDER", Name: "q", Params: []Field{{Name: "leaf", Type: R(ns, "Leaf")}}, Return: tp(R(ns, "Inner"))})
+	s.Resources = append(s.Resources, cks)
+	s.Add(&Named{Ident: Ident{"Ck2_ComplexKey", "vr.ck2"}, Kind: "complexkey", Key: &Ident{"Inner", ns}, Params: &Ident{"Leaf", ns}})
+	ck2 := collection("vr.ck2", nil, "ck2", "key", R("vr.ck2", "Ck2_ComplexKey"), R(ns, "Leaf"))
+	ck2.Methods = restMethods([]string{"get", "create", "batch_get", "batch_delete", "batch_update", "update"}, true, true, nil, false)
+	s.Resources = append(s.Resources, ck2)
+	cksub := collection("vr.cks.under", cks.Segments, "under", "uid", P("string"), R(ns, "Leaf"))
+	cksub.Methods = restMethods([]string{"get", "batch_get", "create"}, true, false, nil, false)
+	s.Resources = append(s.Resources, cksub)
+
+	// 5. simple resource and action set at the root
+	single := simple("vr.single", nil, "single", tp(R(ns, "Inner")))
+	single.Methods = restMethods(restMethodsSimple, false, true, map[string][]Field{"get": allParams("sg", 2, 1)}, false)
+	single.Methods = append(single.Methods, Method{Kind: "ACTION", Name: "ping", Params: []Field{{Name: "msg", Type: P("string")}}, Return: tp(P("string"))})
+	s.Resources = append(s.Resources, single)
+	acts := simple("vr.acts", nil, "acts", nil)
+	for i, t := range pt {
+		m := Method{Kind: "ACTION", Name: fmt.Sprintf("a%d", i), Params: []Field{{Name: "x", Type: t}, {Name: "y", Type: pt[(i+7)%len(pt)], Optional: true}}, Return: tp(t)}
+		acts.Methods = append(acts.Methods, m)
+	}
+	acts.Methods = append(acts.Methods, Method{Kind: "ACTION", Name: "noargs"}, Method{Kind: "ACTION", Name: "noargsResult", Return: tp(M(R(ns, "Leaf")))})
+	s.Resources = append(s.Resources, acts)
+	underSingle := collection("vr.single.kids", single.Segments, "kids", "kidId", P("int32"), R(ns, "Leaf"))
+	underSingle.Methods = restMethods([]string{"get", "get_all", "batch_get"}, true, false, nil, true)
+	s.Resources = append(s.Resources, underSingle)
+
+	// 6. read-only / create-only annotations
+	ann := collection("vr.ann", nil, "ann", "annId", P("int64"), R(ns, "Annotated"))
+	ann.Methods = restMethods(restMethodsCollection, true, false, nil, false)
+	ann.ReadOnly = []string{"id", "audit/s", "tags/*/i"}
+	ann.CreateOnly = []string{"owner", "attrs/*/s"}
+	s.Resources = append(s.Resources, ann)
+	ann2 := collection("vr.annre", nil, "annre", "annId", P("string"), R(ns, "Annotated"))
+	ann2.Methods = restMethods([]string{"create", "batch_create", "partial_update", "update", "get"}, true, true, nil, false)
+	ann2.ReadOnly = []string{"id"}
+	s.Resources = append(s.Resources, ann2)
+
+	if nRandom > 0 {
+		randomResources(s, ns, seed, nRandom)
+	}
 	return s
+}
+
+func randomResources(s *Schema, ns string, seed int64, n int) {
+	kts := keyTypes(ns)
+	pts := paramTypes(ns)
+	ents := []Type{R(ns, "Leaf"), R(ns, "Inner"), R(ns, "WithDefaults"), R(ns, "IncA")}
+	g := rapid.Custom(func(t *rapid.T) []*Resource {
+		var out []*Resource
+		for i := 0; i < n; i++ {
+			name := fmt.Sprintf("rr%d", i)
+			var parents []PathSeg
+			nsr := "vr." + name
+			if len(out) > 0 && rapid.IntRange(0, 2).Draw(t, "nest") == 0 {
+				p := out[rapid.IntRange(0, len(out)-1).Draw(t, "parent")]
+				if len(p.Segments) < 3 {
+					parents = p.Segments
+					nsr = p.Namespace + "." + name
+				}
+			}
+			var r *Resource
+			kind := rapid.IntRange(0, 5).Draw(t, "kind")
+			ent := ents[rapid.IntRange(0, len(ents)-1).Draw(t, "ent")]
+			var pool []string
+			switch {
+			case kind == 0:
+				r = simple(nsr, parents, name, tp(ent))
+				pool = restMethodsSimple
+			case kind == 1:
+				r = simple(nsr, parents, name, nil)
+			default:
+				kt := kts[rapid.IntRange(0, len(kts)-1).Draw(t, "kt")]
+				r = collection(nsr, parents, name, name+"Id", kt, ent)
+				pool = restMethodsCollection
+			}
+			params := map[string][]Field{}
+			var chosen []string
+			for _, m := range pool {
+				if rapid.IntRange(0, 2).Draw(t, "has") > 0 {
+					chosen = append(chosen, m)
+					if rapid.IntRange(0, 3).Draw(t, "hp") == 0 {
+						np := rapid.IntRange(1, 3).Draw(t, "np")
+						for j := 0; j < np; j++ {
+							f := Field{Name: fmt.Sprintf("p%d", j), Type: pts[rapid.IntRange(0, len(pts)-1).Draw(t, "pt")]}
+							f.Optional = rapid.Bool().Draw(t, "popt")
+							params[m] = append(params[m], f)
+						}
+					}
+				}
+			}
+			r.Methods = restMethods(chosen, kind >= 2, rapid.Bool().Draw(t, "re"), params, rapid.Bool().Draw(t, "paging"))
+			if r.Schema != nil && kind >= 2 {
+				nf := rapid.IntRange(0, 2).Draw(t, "nfind")
+				for j := 0; j < nf; j++ {
+					m := Method{Kind: "FINDER", Name: fmt.Sprintf("f%d", j), Return: r.Schema, Paging: rapid.Bool().Draw(t, "fp")}
+					np := rapid.IntRange(0, 2).Draw(t, "fnp")
+					for k := 0; k < np; k++ {
+						m.Params = append(m.Params, Field{Name: fmt.Sprintf("q%d", k), Type: pts[rapid.IntRange(0, len(pts)-1).Draw(t, "fpt")], Optional: rapid.Bool().Draw(t, "fo")})
+					}
+					if rapid.IntRange(0, 3).Draw(t, "meta") == 0 {
+						m.Metadata = tp(R(ns, "Meta"))
+					}
+					r.Methods = append(r.Methods, m)
+				}
+			}
+			na := rapid.IntRange(0, 2).Draw(t, "nact")
+			if kind == 1 && na == 0 {
+				na = 1
+			}
+			for j := 0; j < na; j++ {
+				m := Method{Kind: "ACTION", Name: fmt.Sprintf("x%d", j), OnEntity: kind >= 2 && rapid.Bool().Draw(t, "ae")}
+				np := rapid.IntRange(0, 2).Draw(t, "anp")
+				for k := 0; k < np; k++ {
+					m.Params = append(m.Params, Field{Name: fmt.Sprintf("v%d", k), Type: pts[rapid.IntRange(0, len(pts)-1).Draw(t, "apt")], Optional: rapid.Bool().Draw(t, "ao")})
+				}
+				if rapid.Bool().Draw(t, "aret") {
+					m.Return = tp(pts[rapid.IntRange(0, len(pts)-1).Draw(t, "art")])
+				}
+				r.Methods = append(r.Methods, m)
+			}
+			if len(r.Methods) == 0 {
+				r.Methods = append(r.Methods, Method{Kind: "ACTION", Name: "only"})
+			}
+			out = append(out, r)
+		}
+		return out
+	})
+	s.Resources = append(s.Resources, g.Example(int(seed%1000000007))...)
 }
